@@ -1061,6 +1061,24 @@ func c08Range(r *core.Run) {
 					return false, why
 				}
 			}
+			// ... or the mean of a running tally whose every added term (in this function) is bounded
+			if mc, isCall := v.(*ssa.Call); isCall {
+				if ta, tm := tallyRoles(p); tm != nil && core.StaticCallee(&mc.Call) == tm {
+					okT, whyT := true, ""
+					core.InstrsOf(fn, func(in ssa.Instruction) {
+						if c := core.CallOf(in); c != nil && core.StaticCallee(c) == ta && len(c.Args) >= 2 {
+							if ok3, w := termOK(fn, c.Args[1], in.Block(), depth+1); !ok3 {
+								okT, whyT = false, w
+							}
+						}
+					})
+					if okT {
+						continue
+					}
+					bounded[key] = ""
+					return false, whyT
+				}
+			}
 			// named result accumulated: score = float(len)/float(len) or zero
 			okAll := true
 			why := ""
@@ -1104,6 +1122,21 @@ func c08Range(r *core.Run) {
 			}
 		})
 	}
+	// the same list kept as a running (sum, count) pair: terms are the arguments of the accumulator's add method
+	tAdd, tMean := tallyRoles(p)
+	if tAdd != nil && tMean != nil {
+		for _, fn := range p.FuncsIn("pkg/detection") {
+			core.InstrsOf(fn, func(in ssa.Instruction) {
+				c := core.CallOf(in)
+				if c == nil || core.StaticCallee(c) != tAdd || len(c.Args) < 2 {
+					return
+				}
+				n++
+				ok2, why := termOK(fn, c.Args[1], in.Block(), 0)
+				r.Check(ok2, "C08.RANGE", core.FuncName(fn)+"#score-term("+shape(c.Args[1], 0)+")", in.Pos(), "score term is bounded in [0,1]: "+why, "score term may leave [0,1]: "+why)
+			})
+		}
+	}
 	r.Floor("C08.RANGE", "score terms appended in the detection package", n, 6)
 
 	// Confidence itself: stored value is const 0 or mean of the score list
@@ -1120,6 +1153,12 @@ func c08Range(r *core.Run) {
 			if f, isC := core.ConstFloat(st.Val); isC {
 				r.Check(f >= 0 && f <= 1, "C08.RANGE", core.FuncName(m)+"#confidence-const", st.Pos(), "constant confidence in [0,1]", "constant confidence outside [0,1]")
 				return
+			}
+			if mc, isCall := st.Val.(*ssa.Call); isCall {
+				if _, tm := tallyRoles(p); tm != nil && core.StaticCallee(&mc.Call) == tm {
+					r.OK("C08.RANGE", core.FuncName(m)+"#confidence-mean", st.Pos(), "confidence is the mean of the running score tally")
+					return
+				}
 			}
 			b, isQ := st.Val.(*ssa.BinOp)
 			r.Check(isQ && b.Op == token.QUO && isLenConv(b.Y) && isSumOf(b.X, lenArg(b.Y)), "C08.RANGE", core.FuncName(m)+"#confidence-mean", st.Pos(), "confidence is the mean of the score list", "confidence is "+core.Canon(st.Val)+", not the mean of the bounded score list")
@@ -1396,4 +1435,82 @@ func c08Configured(r *core.Run) {
 	}
 	r.Floor("C08.CONFIG", "fields holding the configured threshold", len(thrFields), 3)
 	r.Floor("C08.CONFIG", "conditional replacements of the configured threshold", n, 1)
+}
+
+// tallyRoles finds a running-mean accumulator in the detection package by its shape: a struct with a float64 sum
+// and an integer count, a method that adds its float64 argument to the sum and increments the count (and stores
+// nothing else), and a method that returns sum / float64(count).
+func tallyRoles(p *core.Program) (add, mean *ssa.Function) {
+	for _, fn := range p.FuncsIn("pkg/detection") {
+		if fn.Signature.Recv() == nil || fn.Blocks == nil {
+			continue
+		}
+		st, ok := core.Deref(fn.Signature.Recv().Type()).Underlying().(*types.Struct)
+		if !ok || st.NumFields() != 2 {
+			continue
+		}
+		sumF, cntF := "", ""
+		for i := 0; i < st.NumFields(); i++ {
+			if isFloat64(st.Field(i).Type()) {
+				sumF = st.Field(i).Name()
+			} else if isIntegerType(st.Field(i).Type()) {
+				cntF = st.Field(i).Name()
+			}
+		}
+		if sumF == "" || cntF == "" {
+			continue
+		}
+		rt := resultTypes(fn)
+		switch {
+		case len(fn.Params) == 2 && isFloat64(fn.Params[1].Type()) && len(rt) == 0:
+			addsSum, incCnt, other := false, false, false
+			core.InstrsOf(fn, func(in ssa.Instruction) {
+				sto, ok := in.(*ssa.Store)
+				if !ok {
+					return
+				}
+				fa, isFA := sto.Addr.(*ssa.FieldAddr)
+				b, isB := sto.Val.(*ssa.BinOp)
+				if !isFA || !isB || b.Op != token.ADD || fa.X != ssa.Value(fn.Params[0]) {
+					other = true
+					return
+				}
+				_, loadsSame := core.FieldLoad(b.X, core.FieldName(fa.X.Type(), fa.Field))
+				switch core.FieldName(fa.X.Type(), fa.Field) {
+				case sumF:
+					addsSum = loadsSame && b.Y == ssa.Value(fn.Params[1])
+				case cntF:
+					k, isK := core.ConstInt(b.Y)
+					incCnt = loadsSame && isK && k == 1
+				default:
+					other = true
+				}
+			})
+			if addsSum && incCnt && !other {
+				add = fn
+			}
+		case len(fn.Params) == 1 && len(rt) == 1 && isFloat64(rt[0]):
+			okM := true
+			for _, ret := range core.Returns(fn) {
+				b, isB := ret.Results[0].(*ssa.BinOp)
+				if !isB || b.Op != token.QUO {
+					okM = false
+					continue
+				}
+				_, ls := core.FieldLoad(b.X, sumF)
+				cv, isCv := b.Y.(*ssa.Convert)
+				lc := false
+				if isCv {
+					_, lc = core.FieldLoad(cv.X, cntF)
+				}
+				if !ls || !lc {
+					okM = false
+				}
+			}
+			if okM && len(core.Returns(fn)) > 0 {
+				mean = fn
+			}
+		}
+	}
+	return
 }
